@@ -291,6 +291,31 @@ def _sweep(rep, pp):
                             if not np.array_equal(got[t], np.tile(exp[t], (ncomp, 1))):
                                 rep.violation("assigned faces carry the assigned type, unassigned boundary faces are Neumann", f"{'vectorial' if vect else 'scalar'} {form} is_{t}",
                                               inputs=inp, detail=f"is_{t} = {got[t].astype(int).tolist()} expected {exp[t].astype(int).tolist()}")
+                    # history: a second assignment through set_bc replaces the first one on the faces it names (vectorial class only;
+                    # the scalar class has no set_bc)
+                    if vect and faces is not None and c % 2 == 0:
+                        sub = faces[: max(1, faces.size // 2)]
+                        second = [rng.choice(["dir", "neu", "rob"]) for _ in range(sub.size)]
+                        inp2 = dict(inp, then_set_bc={"faces": sub.tolist(), "cond": second})
+                        try:
+                            with warnings.catch_warnings():
+                                warnings.simplefilter("ignore")
+                                bc.set_bc(sub, list(second))
+                        except Exception as e:  # noqa
+                            rep.violation("constructor accepts assignments on boundary faces", f"set_bc raises {type(e).__name__}", inputs=inp2, detail=str(e)[:200])
+                        else:
+                            exp2 = {t: exp[t].copy() for t in exp}
+                            for f, w in zip(sub.tolist(), second):
+                                for t in exp2:
+                                    exp2[t][f] = (t == w)
+                            got2 = {"neu": bc.is_neu, "dir": bc.is_dir, "rob": bc.is_rob}
+                            tot2 = sum(got2[t].astype(int) for t in got2)
+                            sw.case(key + ("then set_bc", tuple(sub.tolist()), tuple(second)), nontrivial=True)
+                            if not np.all(tot2[:, onb] == 1):
+                                rep.violation("every boundary face carries exactly one condition type", "vectorial, second assignment through set_bc", inputs=inp2, detail=str(tot2.tolist()))
+                            elif any(not np.array_equal(got2[t], np.tile(exp2[t], (g.dim, 1))) for t in exp2):
+                                rep.violation("assigned faces carry the assigned type, unassigned boundary faces are Neumann", "vectorial, second assignment through set_bc",
+                                              inputs=inp2, detail=f"is_dir = {got2['dir'].astype(int).tolist()} expected {exp2['dir'].astype(int).tolist()}")
                     # assignment off the boundary is rejected
                     interior = np.flatnonzero(~onb)
                     if interior.size and c == 2:
